@@ -189,6 +189,9 @@ func workMain(args []string) int {
 	count := fs.Int("count", 1, "")
 	out := fs.String("out", "", "")
 	deadline := fs.Float64("deadline", 0, "seconds")
+	traceFile := fs.String("trace", "", "write one line per run: idx run_seed fingerprint outcome (determinism self-test)")
+	order := fs.String("order", "fwd", "fwd | rev | evenodd: order in which this worker's runs are executed")
+	nokf := fs.Bool("no-known", false, "ignore known_findings.jsonl")
 	fs.Parse(args)
 	prop := props[*propID]
 	if prop == nil {
@@ -209,7 +212,35 @@ func workMain(args []string) int {
 		writeHashSet(*out+".nontriv", st.nontrivial)
 		writeHashSet(*out+".workloads", st.workloads)
 	}
+	var idxs []int
 	for idx := *wi; idx < *count; idx += *wn {
+		idxs = append(idxs, idx)
+	}
+	switch *order {
+	case "rev":
+		for i, j := 0, len(idxs)-1; i < j; i, j = i+1, j-1 {
+			idxs[i], idxs[j] = idxs[j], idxs[i]
+		}
+	case "evenodd":
+		var a, b []int
+		for i, v := range idxs {
+			if i%2 == 0 {
+				a = append(a, v)
+			} else {
+				b = append(b, v)
+			}
+		}
+		idxs = append(a, b...)
+	}
+	var trace *os.File
+	if *traceFile != "" {
+		trace, _ = os.Create(*traceFile)
+		defer trace.Close()
+	}
+	if *nokf {
+		known = nil
+	}
+	for _, idx := range idxs {
 		if *deadline > 0 && time.Since(start).Seconds() > *deadline {
 			wo.StoppedEarly = true
 			break
@@ -233,6 +264,19 @@ func workMain(args []string) int {
 		wd.Stop()
 		st.Runs++
 		wo.Done++
+		if trace != nil {
+			out := "ok"
+			if v != nil {
+				out = "VIOL:" + v.Sig
+			}
+			if x.Inconclusive != "" {
+				out = "INCONCLUSIVE"
+			}
+			fmt.Fprintf(trace, "%d %d %016x %s\n", idx, runSeed, x.Fingerprint, out)
+			if v != nil {
+				continue // self-test mode: keep going
+			}
+		}
 		if x.Inconclusive != "" {
 			st.Inconclusive = append(st.Inconclusive, fmt.Sprintf("run_seed=%d: %s", runSeed, x.Inconclusive))
 		}
